@@ -63,6 +63,7 @@ def gen_case(rng, thorough, timed):
         ops += observe()
         ops += observe()     # once unobservable, always unobservable; purged from storage
     for o in ops: o["loc"] = "a"
+    gen_case.last_lives = lives
     return ops
 
 def main():
@@ -73,8 +74,10 @@ def main():
     lr = LocRun(ck, []); lr.build()
     n = 300 if not ck.thorough else 6000
     nt = 32 if not ck.thorough else 400
-    opss = [gen_case(ck.rng, ck.thorough, False) for _ in range(n)] + [gen_case(ck.rng, ck.thorough, True) for _ in range(nt)]
-    cases = [{"kind": "loc", "state": st, "locs": ["a"], "ops": copy.deepcopy(o), "timeout_ms": 40000} for o in opss for st in ("indexed", "linear")]
+    opss, livess = [], []
+    for timed in [False] * n + [True] * nt:
+        opss.append(gen_case(ck.rng, ck.thorough, timed)); livess.append(dict(gen_case.last_lives))
+    cases = [{"kind": "loc", "state": st, "locs": ["a"], "ops": copy.deepcopy(o), "timeout_ms": 40000, "_lives": lv} for o, lv in zip(opss, livess) for st in ("indexed", "linear")]
     impl, model, mc = lr.run(cases, skip_if=clock_ambiguous, nontrivial=lambda c: True, jobs=64)
     # direct statement of the property on the real outputs: nothing whose expiry instant is <= the op's clock is ever returned,
     # and the instant of an item does not move without a write
@@ -96,6 +99,43 @@ def main():
                 if o["ok"]["expires"] != 0 and o["ok"]["expires"] <= o["now"] and o["now"] == o.get("now2"):
                     ck.violation("GetFact returned %s at %d although it expired at %d (%s state)" % (op["id"], o["now"], o["ok"]["expires"], c["state"]),
                                  {"case": {kk: (v if kk != "ops" else v[: k + 1]) for kk, v in c.items()}, "impl": o}, tag="observed")
+    # the purge of an expired item may itself fail (storage fault while removing it): the item must still not be returned.
+    # For every timed history: the first storage writes after the sleep are the purges; make each of the first three fail in turn.
+    fcases = []
+    for c, i in zip(mc, impl):
+        outs = (i or {}).get("outs") or []
+        ks = [k for k, op in enumerate(c["ops"]) if op["op"] == "sleep"]
+        if not ks or ks[0] >= len(outs) or clock_ambiguous(c, i): continue
+        W = outs[ks[0]].get("writes", 0)
+        for d in (1, 2, 3):
+            fc = {kk: v for kk, v in c.items()}
+            fc["ops"] = [{kk: v for kk, v in op.items() if kk != "now"} for op in c["ops"] if op["op"] != "reload"]
+            fc["failAt"] = W + d
+            fcases.append(fc)
+    if not ck.thorough: fcases = fcases[:96]
+    fout = run_cases(lr.drv, fcases, jobs=64)
+    for c, o in zip(fcases, fout):
+        ck.count({"failAt": c["failAt"], "ops": c["ops"], "s": c["state"]})
+        lr.stats["purge_fault_cases"] += 1
+        outs = o.get("outs") or []
+        addnow = {}
+        slept = False
+        for k, op in enumerate(c["ops"]):
+            if k >= len(outs) or not isinstance(outs[k], dict): break
+            r = outs[k]
+            if op["op"] in ("addFact", "addRule") and "ok" in r: addnow[op["id"]] = r["now"]
+            if op["op"] == "sleep": slept = True; continue
+            if not slept: continue
+            dead = {i for i, life in c["_lives"].items() if life in (2, 3) and i in addnow and addnow[i] + life + 1 <= r["now"]}
+            seen = set()
+            if op["op"] == "getFact" and "ok" in r and op["id"] in dead: seen.add(op["id"])
+            if op["op"] == "search" and "ok" in r: seen |= {f["id"] for f in r["ok"]} & dead
+            if op["op"] == "event" and r.get("err") is None: seen |= {x["id"] for x in r.get("rules") or []} & dead
+            if op["op"] == "listRules" and "ok" in r: seen |= set(r["ok"]) & dead
+            if seen:
+                ck.violation("%s returned %s after its expiry instant when the storage write of its purge failed (write %d, %s state)" % (op["op"], sorted(seen), c["failAt"], c["state"]),
+                             {"case": {kk: (v if kk != "ops" else v[: k + 1]) for kk, v in c.items()}, "impl": r}, tag="purgefault")
+                break
     for c in cases[:2]:
         ck.sample({"state": c["state"], "ops": c["ops"][:7]})
     lr.finish_cov("per history 3 facts and 2 rules written with an expiry in one of the encodings (numeric seconds, RFC3339, ttl number, ttl duration string; already expired, "
